@@ -48,9 +48,11 @@ class Collection(Object):
     def __call__(self):
         instance = super().__call__()
         # item_number (the next index used by append, part of the identifier) is not
-        # stored: positional items are stored under "0", "1", ...
-        instance.item_number = sum(
-            1 for child in self.children if str(child.name).isdigit()
+        # stored: positional items are stored under "0", "1", ... The next index lies
+        # above the highest one in use, so that append never overwrites an item
+        instance.item_number = max(
+            (int(child.name) + 1 for child in self.children if str(child.name).isdigit()),
+            default=0,
         )
         return instance
 
